@@ -9,6 +9,7 @@ import PdbModel.DriverC12
 import PdbModel.DriverC08
 import PdbModel.DriverC09
 import PdbModel.DriverC11
+import PdbModel.DriverC10
 namespace PdbModel
 
 def parseLevels (t : String) : Option (List ErrorLevel) :=
@@ -43,6 +44,7 @@ def handle (line : String) : String :=
   | "c08" :: rest => (handleC08 rest).getD "BAD-REQUEST"
   | "c09" :: rest => (handleC09 rest).getD "BAD-REQUEST"
   | "c11" :: rest => (handleC11 rest).getD "BAD-REQUEST"
+  | "c10" :: rest => (handleC10 rest).getD "BAD-REQUEST"
   | _ => "BAD-REQUEST"
 
 end PdbModel
